@@ -132,14 +132,49 @@ where
   std::fs::write(cfg.out_dir.join("stats.json"), serde_json::to_string_pretty(&stats).unwrap()).unwrap();
 }
 
-/// Compare impl.sx with model.sx line by line after normalisation. Prints a
-/// JSON report on stdout.
+pub const CLASSTAG: u64 = 555_555;
+
+/// Removes `(555555 n)` class tags from a model output, returning them.
+fn strip_tags(s: &Sx, tags: &mut Vec<u64>) -> Sx {
+  match s {
+    Sx::A(n) => Sx::A(*n),
+    Sx::L(l) => {
+      let mut v = vec![];
+      for x in l {
+        if let Sx::L(t) = x {
+          if t.len() == 2 && t[0] == Sx::A(CLASSTAG) {
+            if let Sx::A(c) = t[1] {
+              tags.push(c);
+              continue;
+            }
+          }
+        }
+        v.push(strip_tags(x, tags));
+      }
+      Sx::L(v)
+    }
+  }
+}
+
+/// Compare impl.sx with model.sx line by line after normalisation. When both
+/// lines are lists of equal length they are compared element-wise (one element
+/// per query) so that a known-class tag the model attaches to one query does
+/// not cover another. Prints a JSON report on stdout.
 pub fn compare(impl_path: &str, model_path: &str) {
   let a = std::fs::read_to_string(impl_path).unwrap();
   let b = std::fs::read_to_string(model_path).unwrap();
   let al: Vec<&str> = a.lines().collect();
   let bl: Vec<&str> = b.lines().collect();
   let mut mismatches = vec![];
+  let mut total = 0usize;
+  // cap the report per class signature, so unknown-class mismatches are never
+  // crowded out by known-class ones
+  let mut per_sig: std::collections::HashMap<Vec<u64>, usize> = std::collections::HashMap::new();
+  let mut admit = |tags: &Vec<u64>| -> bool {
+    let c = per_sig.entry(tags.clone()).or_insert(0);
+    *c += 1;
+    *c <= 100
+  };
   if al.len() != bl.len() {
     mismatches.push(serde_json::json!({"line": -1, "what": format!("line count {} vs {}", al.len(), bl.len())}));
   }
@@ -148,21 +183,46 @@ pub fn compare(impl_path: &str, model_path: &str) {
       continue;
     }
     let sx = Sx::parse(x).map(|s| s.normalize());
-    let sy = Sx::parse(y).map(|s| s.normalize());
+    let sy = Sx::parse(y);
     match (sx, sy) {
-      (Ok(p), Ok(q)) if p == q => {}
       (Ok(p), Ok(q)) => {
-        mismatches.push(serde_json::json!({"line": i, "impl": p.to_string(), "model": q.to_string(), "where": first_diff(&p, &q)}));
+        let elementwise = match (&p, &q) {
+          (Sx::L(pl), Sx::L(ql)) => pl.len() == ql.len() && !pl.is_empty() && pl.iter().all(|e| matches!(e, Sx::L(_))),
+          _ => false,
+        };
+        if elementwise {
+          if let (Sx::L(pl), Sx::L(ql)) = (&p, &q) {
+            for (j, (pe, qe)) in pl.iter().zip(ql.iter()).enumerate() {
+              let mut tags = vec![];
+              let qn = strip_tags(qe, &mut tags).normalize();
+              if *pe != qn {
+                total += 1;
+                if admit(&tags) {
+                  mismatches.push(serde_json::json!({"line": i, "elem": j, "impl": pe.to_string(), "model": qn.to_string(),
+                    "where": first_diff(pe, &qn), "classes": tags}));
+                }
+              }
+            }
+          }
+        } else {
+          let mut tags = vec![];
+          let qn = strip_tags(&q, &mut tags).normalize();
+          if p != qn {
+            total += 1;
+            if admit(&tags) {
+              mismatches.push(serde_json::json!({"line": i, "impl": p.to_string(), "model": qn.to_string(),
+                "where": first_diff(&p, &qn), "classes": tags}));
+            }
+          }
+        }
       }
       (p, q) => {
+        total += 1;
         mismatches.push(serde_json::json!({"line": i, "what": format!("parse error {:?} {:?}", p.err(), q.err())}));
       }
     }
-    if mismatches.len() >= 50 {
-      break;
-    }
   }
-  println!("{}", serde_json::json!({"lines": al.len(), "mismatches": mismatches}));
+  println!("{}", serde_json::json!({"lines": al.len(), "mismatches": mismatches, "total_mismatches": total}));
 }
 
 fn first_diff(a: &Sx, b: &Sx) -> String {
